@@ -173,9 +173,12 @@ def r2(ctx: Ctx) -> None:
     ctx.site(g.where, "centroid step keeps the coordinate of fixed nodes")
     ok = False
     fx = ("p", 4)
-    for cp in comps:
-        body = cp[2][0]
-        b = cp[3][0][0]
+    cands = [(cp[2][0], cp[3][0][0]) for cp in comps]
+    # the normal form of a comprehension that is assigned: the loop collecting its elements
+    for lp in atoms_of(cg, lambda x_: x_[0] == "for" and len(x_) == 5 and len(x_[3]) == 1 and x_[3][0][0] == "expr" and x_[3][0][1][0] == "c"
+                       and x_[3][0][1][1][0] == "a" and x_[3][0][1][1][2] == "append" and len(x_[3][0][1][2]) == 1):
+        cands.append((lp[3][0][1][2][0], lp[1]))
+    for body, b in cands:
         if body[0] == "ite" and body[1] == ("s", fx, b) and body[2][0] == "s" and body[2][2] == b and contains(body[2], "v") and body[3][0] == "s" and body[3][2] == b:
             ok = True
     if not ok:
